@@ -145,7 +145,11 @@ def _reapply_behaviour(ctx):
         it.ext_overrides["jax.lax.stop_gradient"] = lambda it_, a, k: a[0]
         it.ext_overrides["jax.random.split"] = lambda it_, a, k: (Rat.atom(("key", to_rat(a[0]).fmt(), 0)), Rat.atom(("key", to_rat(a[0]).fmt(), 1)))
         mats = c18._mats(it, 1)
-        overlap = {("D1", "srcA"): True, ("D2", "srcB"): True}  # everything else: no overlap
+        # concrete stand-in boxes decide the gate through the repo's own predicate (whatever it is called): srcA is
+        # flush against D1 (extents meet at x = 10, no shared cell — a TFSF region reads the materials one cell outside
+        # its own slice, so a flush device is part of what it is set up against), srcB shares cells with D2, srcC is
+        # separated from both devices on every axis
+        boxes = {"D1": ((10, 16), (4, 10), (4, 10)), "D2": ((30, 36), (30, 36), (30, 36)), "srcA": ((4, 10), (4, 10), (4, 10)), "srcB": ((32, 34), (28, 40), (31, 33)), "srcC": ((20, 24), (18, 22), (20, 24))}
         applied = {}
 
         def mk_apply(name):
@@ -158,11 +162,26 @@ def _reapply_behaviour(ctx):
         devices = []
         for dn in ("D1", "D2"):
             d = s.device(dn, "continuous", False, mats)
-            d.attrs["check_overlap"] = Builtin("check_overlap", lambda it_, a, k, _d=dn: overlap.get((_d, a[0].attrs["name"]), False))
             d.attrs["apply"] = mk_apply(dn)
             devices.append(d)
         S = ix.cls("fdtdx.objects.object.SimulationObject")
         others = [Obj(S, dict(name=n, apply=mk_apply(n)), n) for n in ("srcA", "srcB", "srcC")]
+
+        def gate(it_, callee, args, kwargs):
+            # a one-argument predicate of SimulationObject asked of a device about another object: run the repo's own
+            # method on the stand-in boxes
+            from ..values import Bound
+
+            if isinstance(callee, Bound) and isinstance(callee.self_obj, Obj) and callee.self_obj in devices and len(args) == 1 and not kwargs and isinstance(args[0], Obj) and callee.func.qualname.startswith(S.qualname + "."):
+                me, other = callee.self_obj.attrs.get("name"), args[0].attrs.get("name", "volume")
+                if other not in boxes:
+                    return False  # the volume: its apply is not the subject
+                a = Obj(S, {"_grid_slice_tuple": boxes[me], "name": me}, me)
+                b = Obj(S, {"_grid_slice_tuple": boxes[other], "name": other}, other)
+                return it_.call(Bound(a, callee.func), [b], {})
+            return NotImplemented
+
+        it.call_hooks.insert(0, gate)
         objs = sc.objects(devices + others)
         vol = objs.attrs["object_list"][0]
         vol.attrs["apply"] = mk_apply(vol.attrs.get("name", "volume"))
@@ -179,8 +198,8 @@ def _reapply_behaviour(ctx):
             raise AnalysisError(f"apply_params raises on the two-device scene: {r}")
         out = res[0] if isinstance(res, tuple) else res
         label = f"apply_params[two devices{', c4 allocated' if with_c4 else ''}]"
-        who = {n: len(v) for n, v in applied.items()}
-        ctx.ob("R29.3", f"{label}:who-is-re-applied", who == {"srcA": 1, "srcB": 1}, "exactly the objects that overlap some device — the first device as well as the last — are re-applied, once each; an object overlapping none is left as place_objects set it up", who, {"srcA": 1, "srcB": 1})
+        who = {n: len(v) for n, v in applied.items() if n not in ("D1", "D2")}  # a device asked about itself: its own apply is not the subject
+        ctx.ob("R29.3", f"{label}:who-is-re-applied", who == {"srcA": 1, "srcB": 1}, "exactly the objects that share cells with, or sit flush against, some device — the first device as well as the last — are re-applied, once each (decided by the repo's own predicate on concrete boxes); an object overlapping none is left as place_objects set it up", who, {"srcA": 1, "srcB": 1})
         state_args = {"inv_permittivities": "inv_permittivities", "inv_permeabilities": "inv_permeabilities", "dispersive_c1": "dispersive_c1", "dispersive_c2": "dispersive_c2", "dispersive_c3": "dispersive_c3", "dispersive_c4": "dispersive_c4", "electric_conductivity": "electric_conductivity"}
         bad = []
         for n in ("srcA", "srcB"):
